@@ -13,6 +13,9 @@
 #include <string>
 #include <vector>
 #include <limits>
+#include <array>
+#include <utility>
+#include <type_traits>
 #include <dune/common/float_cmp.hh>
 #include <dune/common/math.hh>
 #include <dune/common/fvector.hh>
@@ -60,6 +63,18 @@ static std::string cmp6(T eps, T a, T b)
   r += ops.lt(a, b) ? '1' : '0';
   r += ops.ge(a, b) ? '1' : '0';
   r += ops.le(a, b) ? '1' : '0';
+  // default-constructed object (DefaultEpsilon), epsilon set through the setter, read back through the getter; non-default rstyle_
+  FloatCmpOps<T, cs, FloatCmp::upward> ops2;
+  ops2.epsilon(eps);
+  r += ' ';
+  if (to_bits<T>(ops2.epsilon()) != to_bits<T>(eps)) return r + "GETTER";
+  static_assert(FloatCmpOps<T, cs, FloatCmp::upward>::cstyle == cs && FloatCmpOps<T, cs, FloatCmp::upward>::rstyle == FloatCmp::upward, "recorded styles");
+  r += ops2.eq(a, b) ? '1' : '0';
+  r += ops2.ne(a, b) ? '1' : '0';
+  r += ops2.gt(a, b) ? '1' : '0';
+  r += ops2.lt(a, b) ? '1' : '0';
+  r += ops2.ge(a, b) ? '1' : '0';
+  r += ops2.le(a, b) ? '1' : '0';
   return r;
 }
 
@@ -85,17 +100,38 @@ static std::string fveq(T eps, const std::vector<T>& a, const std::vector<T>& b)
   return r;
 }
 
+template<class V, CmpStyle cs, class E>
+static std::string six_of(const V& a, const V& b, E eps)
+{
+  std::string r;
+  r += FloatCmp::eq<V, cs>(a, b, eps) ? '1' : '0';
+  r += FloatCmp::ne<V, cs>(a, b, eps) ? '1' : '0';
+  r += FloatCmp::gt<V, cs>(a, b, eps) ? '1' : '0';
+  r += FloatCmp::lt<V, cs>(a, b, eps) ? '1' : '0';
+  r += FloatCmp::ge<V, cs>(a, b, eps) ? '1' : '0';
+  r += FloatCmp::le<V, cs>(a, b, eps) ? '1' : '0';
+  return r;
+}
+
 template<class T, CmpStyle cs>
 static std::string vcmp(T eps, const std::vector<T>& a, const std::vector<T>& b)
 {
-  std::string r;
-  r += FloatCmp::eq<std::vector<T>, cs>(a, b, eps) ? '1' : '0';
-  r += FloatCmp::ne<std::vector<T>, cs>(a, b, eps) ? '1' : '0';
+  static_assert(std::is_same<typename FloatCmp::EpsilonType<std::vector<T>>::Type, T>::value, "EpsilonType of std::vector");
+  static_assert(std::is_same<typename FloatCmp::EpsilonType<FieldVector<T, 3>>::Type, T>::value, "EpsilonType of FieldVector");
+  static_assert(std::is_same<typename FloatCmp::EpsilonType<T>::Type, T>::value, "EpsilonType of a scalar");
+  std::string r = six_of<std::vector<T>, cs>(a, b, eps);
   r += ' ';
-  if (a.size() == b.size() && a.size() == 1) r += fveq<T, cs, 1>(eps, a, b);
+  if (a.size() == b.size() && a.size() == 1) {
+    FieldVector<T, 1> x(a[0]), y(b[0]);
+    r += six_of<FieldVector<T, 1>, cs>(x, y, eps);      // FieldVector<T,1> also has the ordering operators
+  }
   else if (a.size() == b.size() && a.size() == 2) r += fveq<T, cs, 2>(eps, a, b);
   else if (a.size() == b.size() && a.size() == 3) r += fveq<T, cs, 3>(eps, a, b);
   else r += "--";
+  r += ' ';
+  FloatCmpOps<std::vector<T>, cs> ops(eps);
+  r += ops.eq(a, b) ? '1' : '0'; r += ops.ne(a, b) ? '1' : '0'; r += ops.gt(a, b) ? '1' : '0';
+  r += ops.lt(a, b) ? '1' : '0'; r += ops.ge(a, b) ? '1' : '0'; r += ops.le(a, b) ? '1' : '0';
   return r;
 }
 
@@ -229,6 +265,148 @@ static std::string do_unord(const std::vector<std::string>& t)
   return r;
 }
 
+// ---------------------------------------------------------------- defaulted template / function arguments
+template<class T, CmpStyle cs>
+static std::string defeps_one()
+{
+  FloatCmpOps<T, cs> ops;     // default constructor: DefaultEpsilon<EpsilonType, cstyle>::value()
+  return to_bits<T>(FloatCmp::DefaultEpsilon<T, cs>::value()) + " " + to_bits<T>(FloatCmp::DefaultEpsilon<std::vector<T>, cs>::value()) + " "
+       + to_bits<T>(FloatCmp::DefaultEpsilon<FieldVector<T, 2>, cs>::value()) + " " + to_bits<T>(ops.epsilon());
+}
+template<class T>
+static std::string do_defeps()
+{
+  return defeps_one<T, FloatCmp::relativeWeak>() + " " + defeps_one<T, FloatCmp::relativeStrong>() + " " + defeps_one<T, FloatCmp::absolute>()
+       + " " + to_bits<T>(FloatCmp::DefaultEpsilon<T>::value());   // style defaulted as well
+}
+
+template<class T, CmpStyle cs>
+static std::string six_default(T a, T b)       // epsilon defaulted by the declarations in float_cmp.hh
+{
+  std::string r;
+  r += FloatCmp::eq<T, cs>(a, b) ? '1' : '0'; r += FloatCmp::ne<T, cs>(a, b) ? '1' : '0'; r += FloatCmp::gt<T, cs>(a, b) ? '1' : '0';
+  r += FloatCmp::lt<T, cs>(a, b) ? '1' : '0'; r += FloatCmp::ge<T, cs>(a, b) ? '1' : '0'; r += FloatCmp::le<T, cs>(a, b) ? '1' : '0';
+  return r;
+}
+template<class T>
+static std::string do_cmpd(const std::vector<std::string>& t)
+{
+  T eps = from_bits<T>(t[2]), a = from_bits<T>(t[3]), b = from_bits<T>(t[4]);
+  std::string r = six_default<T, FloatCmp::relativeWeak>(a, b) + " " + six_default<T, FloatCmp::relativeStrong>(a, b) + " " + six_default<T, FloatCmp::absolute>(a, b) + " ";
+  // compare style defaulted (the overloads of float_cmp.cc), epsilon defaulted / given
+  r += FloatCmp::eq<T>(a, b) ? '1' : '0'; r += FloatCmp::ne<T>(a, b) ? '1' : '0'; r += FloatCmp::gt<T>(a, b) ? '1' : '0';
+  r += FloatCmp::lt<T>(a, b) ? '1' : '0'; r += FloatCmp::ge<T>(a, b) ? '1' : '0'; r += FloatCmp::le<T>(a, b) ? '1' : '0';
+  r += ' ';
+  r += FloatCmp::eq<T>(a, b, eps) ? '1' : '0'; r += FloatCmp::ne<T>(a, b, eps) ? '1' : '0'; r += FloatCmp::gt<T>(a, b, eps) ? '1' : '0';
+  r += FloatCmp::lt<T>(a, b, eps) ? '1' : '0'; r += FloatCmp::ge<T>(a, b, eps) ? '1' : '0'; r += FloatCmp::le<T>(a, b, eps) ? '1' : '0';
+  r += ' ';
+  FloatCmpOps<T> ops;          // every template argument and the epsilon defaulted
+  r += ops.eq(a, b) ? '1' : '0'; r += ops.ne(a, b) ? '1' : '0'; r += ops.gt(a, b) ? '1' : '0';
+  r += ops.lt(a, b) ? '1' : '0'; r += ops.ge(a, b) ? '1' : '0'; r += ops.le(a, b) ? '1' : '0';
+  return r;
+}
+
+// rto <round|trunc> F I SEL X EPS V : the overloads that default the rounding style (SEL=c, X = compare style),
+// the compare style (SEL=r, X = rounding style) or both (SEL=n); EPS "-" = defaulted epsilon
+template<class I, class T, CmpStyle cs>
+static I rto_c(bool isround, bool defeps, T eps, T v)
+{
+  if (isround) return defeps ? FloatCmp::round<I, T, cs>(v) : FloatCmp::round<I, T, cs>(v, eps);
+  return defeps ? FloatCmp::trunc<I, T, cs>(v) : FloatCmp::trunc<I, T, cs>(v, eps);
+}
+template<class I, class T, RoundingStyle rs>
+static I rto_r(bool isround, bool defeps, T eps, T v)
+{
+  if (isround) return defeps ? FloatCmp::round<I, T, rs>(v) : FloatCmp::round<I, T, rs>(v, eps);
+  return defeps ? FloatCmp::trunc<I, T, rs>(v) : FloatCmp::trunc<I, T, rs>(v, eps);
+}
+template<class I, class T>
+static std::string rto_I(const std::vector<std::string>& t)
+{
+  bool isround = t[1] == "round";
+  const std::string& sel = t[4]; const std::string& x = t[5];
+  bool defeps = t[6] == "-";
+  T eps = defeps ? T(0) : from_bits<T>(t[6]);
+  T v = from_bits<T>(t[7]);
+  I r;
+  if (sel == "c") r = x == "w" ? rto_c<I, T, FloatCmp::relativeWeak>(isround, defeps, eps, v) : x == "s" ? rto_c<I, T, FloatCmp::relativeStrong>(isround, defeps, eps, v) : rto_c<I, T, FloatCmp::absolute>(isround, defeps, eps, v);
+  else if (sel == "r") r = x == "z" ? rto_r<I, T, FloatCmp::towardZero>(isround, defeps, eps, v) : x == "i" ? rto_r<I, T, FloatCmp::towardInf>(isround, defeps, eps, v)
+                         : x == "d" ? rto_r<I, T, FloatCmp::downward>(isround, defeps, eps, v) : rto_r<I, T, FloatCmp::upward>(isround, defeps, eps, v);
+  else {
+    if (isround) r = defeps ? FloatCmp::round<I, T>(v) : FloatCmp::round<I, T>(v, eps);
+    else r = defeps ? FloatCmp::trunc<I, T>(v) : FloatCmp::trunc<I, T>(v, eps);
+    FloatCmpOps<T> ops; if (!defeps) ops.epsilon(eps);
+    I r2 = isround ? ops.template round<I>(v) : ops.template trunc<I>(v);
+    if (r2 != r) return istr<I>(r) + " ops:" + istr<I>(r2);
+  }
+  return istr<I>(r);
+}
+template<class T>
+static std::string do_rto(const std::vector<std::string>& t)
+{
+  const std::string& i = t[3];
+  if (i == "i32") return rto_I<std::int32_t, T>(t);
+  if (i == "u32") return rto_I<std::uint32_t, T>(t);
+  if (i == "i64") return rto_I<long, T>(t);
+  return rto_I<unsigned long, T>(t);
+}
+
+// ---------------------------------------------------------------- integral_constant overloads, Factorial<m>
+template<int... n> static constexpr std::array<int, sizeof...(n)> icfact_table(std::integer_sequence<int, n...>)
+{ return {{ decltype(Dune::factorial(std::integral_constant<int, n>{}))::value... }}; }
+#pragma GCC diagnostic push
+#pragma GCC diagnostic ignored "-Wdeprecated-declarations"
+template<int... n> static constexpr std::array<int, sizeof...(n)> Factorial_table(std::integer_sequence<int, n...>)
+{ return {{ Dune::Factorial<n>::factorial... }}; }
+#pragma GCC diagnostic pop
+static constexpr int IC_N = 13;                    // n = 0..12
+template<int n, int... k> static constexpr std::array<int, sizeof...(k)> icbinom_row(std::integer_sequence<int, k...>)
+{ return {{ decltype(Dune::binomial(std::integral_constant<int, n - 1>{}, std::integral_constant<int, k - 1>{}))::value... }}; }   // n-1, k-1: from -1
+template<int... n> static constexpr std::array<std::array<int, IC_N + 2>, sizeof...(n)> icbinom_table(std::integer_sequence<int, n...>)
+{ return {{ icbinom_row<n>(std::make_integer_sequence<int, IC_N + 2>{})... }}; }
+
+static std::string do_ic(const std::vector<std::string>& t)
+{
+  static constexpr auto ft = icfact_table(std::make_integer_sequence<int, IC_N>{});
+  static constexpr auto Ft = Factorial_table(std::make_integer_sequence<int, IC_N>{});
+  static constexpr auto bt = icbinom_table(std::make_integer_sequence<int, IC_N + 2>{});
+  if (t[0] == "icfact") { int n = std::stoi(t[1]); return std::to_string(ft[n]) + " " + std::to_string(Ft[n]); }
+  int n = std::stoi(t[1]), k = std::stoi(t[2]);
+  return std::to_string(bt[n + 1][k + 1]);
+}
+
+// classification of integer values (forwarded to std::isnan etc. through the PriorityTag<0> overloads), sign of narrow types
+template<class I> static std::string icls(const std::string& v)
+{
+  I x = parse_int<I>(v);
+  std::string r;
+  r += Dune::isNaN(x) ? '1' : '0'; r += Dune::isInf(x) ? '1' : '0'; r += Dune::isFinite(x) ? '1' : '0'; r += Dune::isUnordered(x, x) ? '1' : '0';
+  return r;
+}
+
+template<class I, class E> static std::string ipowx(const std::string& m, const std::string& p)
+{ return istr<I>(Dune::power(parse_int<I>(m), (E) std::stol(p))); }
+template<class I> static std::string do_ipowx(const std::vector<std::string>& t)
+{
+  if (t[2] == "l") return ipowx<I, long>(t[3], t[4]);
+  if (t[2] == "u") return ipowx<I, unsigned>(t[3], t[4]);
+  return ipowx<I, short>(t[3], t[4]);
+}
+
+template<class T>
+static std::string do_cls_vc(const std::vector<std::string>& t)
+{
+  static_assert(HasNaN<T>::value && HasNaN<std::complex<T>>::value && !HasNaN<int>::value, "HasNaN");
+  int n = std::stoi(t[3]);
+  std::vector<std::complex<T>> v;
+  for (int i = 0; i < n; ++i) v.emplace_back(from_bits<T>(t[4 + 2*i]), from_bits<T>(t[5 + 2*i]));
+  std::string r;
+  auto go = [&](auto x) { for (int i = 0; i < n; ++i) x[i] = v[i];
+    r += Dune::isNaN(x) ? '1' : '0'; r += Dune::isInf(x) ? '1' : '0'; r += Dune::isFinite(x) ? '1' : '0'; };
+  if (n == 1) go(FieldVector<std::complex<T>, 1>()); else if (n == 2) go(FieldVector<std::complex<T>, 2>()); else go(FieldVector<std::complex<T>, 3>());
+  return r;
+}
+
 template<class T>
 static std::string do_float(const std::vector<std::string>& t)
 {
@@ -238,7 +416,10 @@ static std::string do_float(const std::vector<std::string>& t)
   if (op == "round" || op == "trunc") return do_rt<T>(t);
   if (op == "fpow") return to_bits<T>(Dune::power(from_bits<T>(t[2]), (int) std::stol(t[3])));
   if (op == "fsign") return std::to_string(Dune::sign(from_bits<T>(t[2])));
+  if (op == "cls" && t[2] == "vc") return do_cls_vc<T>(t);
   if (op == "cls") return do_cls<T>(t);
+  if (op == "defeps") return do_defeps<T>();
+  if (op == "cmpd") return do_cmpd<T>(t);
   if (op == "unord") return do_unord<T>(t);
   return "UNKNOWN-OP";
 }
@@ -255,11 +436,19 @@ int main(int argc, char** argv)
     std::string out;
     if (t.empty()) out = "EMPTY";
     else if (t[0] == "ipow" || t[0] == "fact" || t[0] == "binom" || t[0] == "isign") {
-      if (t[1] == "i32") out = do_int<std::int32_t>(t);
+      if (t[0] == "isign" && t[1] == "i8") out = std::to_string(Dune::sign((signed char) std::stol(t[2])));
+      else if (t[0] == "isign" && t[1] == "u8") out = std::to_string(Dune::sign((unsigned char) std::stol(t[2])));
+      else if (t[0] == "isign" && t[1] == "i16") out = std::to_string(Dune::sign((short) std::stol(t[2])));
+      else if (t[0] == "isign" && t[1] == "u16") out = std::to_string(Dune::sign((unsigned short) std::stol(t[2])));
+      else if (t[1] == "i32") out = do_int<std::int32_t>(t);
       else if (t[1] == "u32") out = do_int<std::uint32_t>(t);
       else if (t[1] == "i64") out = do_int<long>(t);
       else out = do_int<unsigned long>(t);
     }
+    else if (t[0] == "icfact" || t[0] == "icbinom") out = do_ic(t);
+    else if (t[0] == "icls") out = t[1] == "i32" ? icls<std::int32_t>(t[2]) : t[1] == "u32" ? icls<std::uint32_t>(t[2]) : icls<long>(t[2]);
+    else if (t[0] == "ipowx") out = t[1] == "i32" ? do_ipowx<std::int32_t>(t) : t[1] == "u32" ? do_ipowx<std::uint32_t>(t) : t[1] == "i64" ? do_ipowx<long>(t) : do_ipowx<unsigned long>(t);
+    else if (t[0] == "rto") out = t[2] == "32" ? do_rto<float>(t) : do_rto<double>(t);
     else if (t[1] == "32") out = do_float<float>(t);
     else out = do_float<double>(t);
     std::cout << out << std::endl;
